@@ -4,26 +4,26 @@
 # suite pass with it. On success copies patch+demo+meta into /verif/seeded/<name>/ and removes the worktree.
 set -u
 N=$1; PROP=$2
-WT=/tmp/wt/$N; SD=/tmp/seeded/$N; OUT=/verif/seeded/$N
+WT=/tmp/wt/$N; SD=${SEED_DIR:-/tmp/seeded}/$N; OUT=/verif/seeded/$N
 export GOFLAGS=-mod=mod GOPROXY=off GOSUMDB=off GOTOOLCHAIN=local
 cd $WT || exit 9
 DEMO=$(python3 -c "import json;print(json.load(open('$SD/meta.json'))['demo'])")
 echo "demo: $DEMO"
-git -C $WT diff > /tmp/seeded/$N/patch.check.diff
-run_demo() { (cd $WT && eval "$DEMO" > /tmp/seeded/$N/demo.$1.log 2>&1); echo $?; }
+git -C $WT diff > $SD/patch.check.diff
+run_demo() { (cd $WT && eval "$DEMO" > $SD/demo.$1.log 2>&1); echo $?; }
 with=$(run_demo with)
 git -C $WT apply -R $SD/patch.diff || { echo "cannot revert"; exit 9; }
 without=$(run_demo without)
 git -C $WT apply $SD/patch.diff || { echo "cannot re-apply"; exit 9; }
 echo "demo with change rc=$with ; without rc=$without"
 # full suite with the change, demo files moved aside
-mkdir -p /tmp/seeded/$N/aside; for f in $(cd $WT && git ls-files --others --exclude-standard | grep _test.go); do mkdir -p /tmp/seeded/$N/aside/$(dirname $f); mv $WT/$f /tmp/seeded/$N/aside/$f; done
-(cd $WT && go build ./... && go test -vet=off -count=1 -timeout 25m ./... 2>&1 | grep -v "^ok\|no test files" > /tmp/seeded/$N/suite.log)
-fails=$(grep -c "^FAIL\s*github.com" /tmp/seeded/$N/suite.log)
-onlyclient=$(grep "^FAIL\s*github.com" /tmp/seeded/$N/suite.log | grep -vc "haqq/client\s")
+mkdir -p $SD/aside; for f in $(cd $WT && git ls-files --others --exclude-standard | grep _test.go); do mkdir -p $SD/aside/$(dirname $f); mv $WT/$f $SD/aside/$f; done
+(cd $WT && go build ./... && go test -vet=off -count=1 -timeout 25m ./... 2>&1 | grep -v "^ok\|no test files" > $SD/suite.log)
+fails=$(grep -c "^FAIL\s*github.com" $SD/suite.log)
+onlyclient=$(grep "^FAIL\s*github.com" $SD/suite.log | grep -vc "haqq/client\s")
 echo "suite: failing packages=$fails other-than-client=$onlyclient"
 if [ "$with" != "0" ] && [ "$without" = "0" ] && [ "$onlyclient" = "0" ]; then
-  mkdir -p $OUT; cp $SD/patch.diff $OUT/; (cd /tmp/seeded/$N/aside && find . -name '*_test.go' -exec cp {} $OUT/ \;)
+  mkdir -p $OUT; cp $SD/patch.diff $OUT/; (cd $SD/aside && find . -name '*_test.go' -exec cp {} $OUT/ \;)
   WITH=$with WITHOUT=$without ONLY=$onlyclient DEMO="$DEMO" SD=$SD OUT=$OUT PROP=$PROP python3 - <<'PY'
 import json,os
 e=os.environ
@@ -38,7 +38,7 @@ PY
   echo "CONFIRMED -> $OUT"
   git -C /repo worktree remove --force $WT
 else
-  echo "NOT CONFIRMED"; cat /tmp/seeded/$N/suite.log | head -20
+  echo "NOT CONFIRMED"; cat $SD/suite.log | head -20
   # put the demo files back so that the confirmation can be repeated
-  (cd /tmp/seeded/$N/aside && find . -name '*_test.go' | while read f; do cp $f $WT/$f; done); rm -rf /tmp/seeded/$N/aside
+  (cd $SD/aside && find . -name '*_test.go' | while read f; do cp $f $WT/$f; done); rm -rf $SD/aside
 fi
